@@ -342,10 +342,14 @@ func CompileList(list List) (f Object) {
 			if fi := CurrentPackage.funcs[name]; fi != nil {
 				f = fi.Create(list[1:])
 			} else {
+				// A placeholder for a function that is not defined yet. It is
+				// patched by Package.DefLambda once the function is defined
+				// so the call must keep its arguments. Until then a call
+				// accepts any arguments and fails as an undefined function.
 				lc := Lambda{
 					Doc: &FuncDoc{
 						Name: name,
-						Args: []*DocArg{},
+						Args: []*DocArg{{Name: AmpRest}, {Name: "args"}},
 					},
 					Forms: List{Undefined(name)},
 				}
@@ -355,6 +359,7 @@ func CompileList(list List) (f Object) {
 						Function: Function{
 							Name: name,
 							Self: &lc,
+							Args: args,
 						},
 					}
 				}
